@@ -38,6 +38,10 @@ ENV.update({'CARGO_NET_OFFLINE': 'true', 'RUSTFLAGS': '--cfg circ_verif', 'CARGO
 
 def sh(cmd, cwd=None, timeout=1800, env=None):
     """run a shell command; returns (rc, combined output)"""
+    if 'circ-verif-harness' in cmd and 'cargo' not in cmd:
+        # a changed crate may allocate without bound (seen: a lost field mask made a stream eat 46 GB): cap the address
+        # space of harness runs; the allocation failure then aborts the run, which the streams report as a crash
+        cmd = "ulimit -v 25165824 2>/dev/null; " + cmd
     try:
         p = subprocess.run(cmd, shell=True, cwd=cwd, env=env or ENV, stdout=subprocess.PIPE,
                            stderr=subprocess.STDOUT, timeout=timeout)
